@@ -65,6 +65,8 @@ var handK = []string{
 	`var a=1; def b "nm" { x = a+2.5; print "s"+x } bind b->struct`,
 	"var domain = \"acme.com\"\nvar default_port    = 8400\nvar local_port_base = default_port + 1000\n\ndef tunnel \"myservice-prod\" {\n\thost = \"prod\" + \".\" + domain\n\tlocal_port  = local_port_base + 1\n\tremote_port = default_port\n\tenabled = true\n\n\tdef extras {\n\t\tmax_latency = 8.5 # [ms]\n\t}\n}\n\nbind tunnel -> struct\n",
 	"# comment only",
+	// escapes that put bytes into a string which are not UTF-8
+	`print "\xff"`, `print "caf\xe9" + "\xe2\x82"`, `def b "\xc0\xaf" { f = "\377\376"; g = NAME }` + "\nbind b -> struct", `var sep = "\xa0"; print "head \x80 tail" + sep; print "\x00\x7f\u00e9\U0001F600"`,
 	"# c1\nprint 1 # c2\r\nprint 2\r\n",
 	"print \"é\" # ü\nprint 2",
 	"print 1\u0085print 2",
@@ -229,6 +231,9 @@ func Core() []string {
 	for _, e := range []string{"1+2", `"a"+2.5`, "nil or 3", "1/0", `"x"*2`} {
 		add("var v = " + e + "; print v; def b { f = v }")
 		add("def b { f = " + e + " }")
+	}
+	for _, s := range ScopeExit() {
+		add(s)
 	}
 	// constants of every kind in one program (for dump/load)
 	add(`def k "nm" { i = 42; n = 0 - 42; big = 9223372036854775807; f = 2.5; g = 1e21; h = 5e-324; s = "str"; e = ""; t = true; u = false; z = nil; def in { q = i } }; bind k -> struct`)
@@ -408,6 +413,35 @@ func ScaledFamilies(big bool) []Scaled {
 	// many newlines (line table size classes)
 	for _, n := range []int{240, 241, 2288} {
 		add(fmt.Sprintf("lines-%d", n), rep("print 1\n", n))
+	}
+	return out
+}
+
+// ScopeExit: a block declares n variables, reads one of them last, ends; the same NAME is then
+// used in every position a name can have afterwards (where it must mean something else, or nothing).
+func ScopeExit() []string {
+	var out []string
+	for n := 1; n <= 3; n++ {
+		for last := 0; last < n; last++ {
+			inner := ""
+			for i := 0; i < n; i++ {
+				inner += fmt.Sprintf("var v%d = %d\n", i, 5+i)
+			}
+			v := fmt.Sprintf("v%d", last)
+			inner += "f = " + v + "\n"
+			blk := "def b {\n" + inner + "}\n"
+			out = append(out,
+				blk+"print "+v,                                  // undefined afterwards
+				blk+"print true or "+v,                          // ... even in a skipped operand
+				"def o {\n"+v+" = 3\n"+blk+"g = "+v+"\n}",       // the outer block's field again
+				"def o {\n"+blk+v+" = 9000\n}",                  // a field assignment
+				"def o {\n"+v+" = 1\n"+blk+"g = false and "+v+"\n}",
+				"var "+v+" = 70\n"+blk+"print "+v+"\n"+v+" = 71\nprint "+v, // the shadowed outer variable
+				"def o {\nvar "+v+" = 70\n"+blk+"g = "+v+"\n"+blk+"}",
+				blk+"def c {\n"+v+" = 4\nh = "+v+"\n}",
+				"def o {\ndef m {\n"+blk+"}\n"+v+" = 1\ng = "+v+"\n}",
+			)
+		}
 	}
 	return out
 }
